@@ -37,6 +37,7 @@ What the search-level theorems cover, said once:
   `{"name": null}`, `road_class_parser` as `{"mapping": {…}}` or `[{…}]`
   (`vehicle_dimension_read_exactly` was restated accordingly).
 -/
+import Compass.Model.Search
 import Compass.Gen.Decisions
 import Compass.Proofs.Num
 import Compass.Model.Instance
@@ -925,6 +926,12 @@ theorem src_restriction_trailer_length {α : Type} [Field α] [LinearOrder α] [
     some ((Restriction.length 5 limit unit).valid p) =
       restriction_trailer_length.num (p.trailerLength.2.convert unit p.trailerLength.1) limit := by
   simp [Restriction.valid, restriction_trailer_length, Rel.num]
+
+/-- shared by every search property: the label test of `run_a_star`'s relaxation (`improves`) is the
+source's `tentative_gscore < existing_gscore`; with `<=` an equal-cost arrival re-labels an expanded vertex -/
+theorem src_relax_improves {α : Type} [Field α] [LinearOrder α] [IsStrictOrderedRing α] [Lit α] [LawfulLit α] (tent ex : α) :
+    some (improves tent (some ex)) = relax_improves.num tent ex := by
+  simp [improves, relax_improves, Rel.num]
 
 end C04
 end Compass
